@@ -541,8 +541,13 @@ def _corpus():
             # a matching Case branch WITHOUT statements does nothing (the default must not run for it), comb and sync
             self.e = Signal(4); self.f = Signal(4, reset=5)
             self.comb += Case(self.sel, {0: [], 1: self.e.eq(self.a), "default": self.e.eq(9)})
+            # a comb target assigned piecewise: an unconditional slice plus conditional assignments to OTHER bits (those fall back to the
+            # reset value when the condition is false), a reset value that is not zero, and a target only ever assigned conditionally
+            self.g = Signal(6, reset=0b101010); self.k = Signal(4, reset=0b0110); self.c2 = Signal()
+            self.comb += [self.g[0:2].eq(self.a[0:2]), If(self.c2, self.g[2:4].eq(self.a[2:4])), If(self.sel == 2, self.g[5].eq(self.a[0]))]
+            self.comb += If(self.c2 & self.sel[0], self.k.eq(self.a))
             self.sync += Case(self.sel, {2: [], 3: self.f.eq(self.a), "default": self.f.eq(self.f + 1)})
-    C.append(("statement-nests", lambda: (lambda d: (d, {d.a, d.b, d.sel, d.o, d.p, d.q, d.r0, d.r1, d.e, d.f}))(Stmts())))
+    C.append(("statement-nests", lambda: (lambda d: (d, {d.a, d.b, d.sel, d.o, d.p, d.q, d.r0, d.r1, d.e, d.f, d.g, d.k, d.c2}))(Stmts())))
     # second batch: more of the real LiteX library (interconnect, bridges, packet, peripherals)
     from litex.soc.interconnect import packet, axi, ahb
     from litex.soc.cores import timer as _timer, uart as _uart, spi as _spi
